@@ -84,9 +84,10 @@ fn gen_block(rng: &mut Rng, pool: &Pool, fam: usize) -> Vec<u8> {
         let inv: Vec<Vec<u8>> = (0..n).map(|_| { let mut v = vec![]; head(&mut v, 0, if rng.chance(1, 8) { rng.u64_edgy() & 0xffff_ffff } else { rng.below(k as u64 + 2) }); v }).collect();
         let mut v = vec![]; array(&mut v, &inv, rng.chance(1, 6)); parts.push(v);
     }
-    let mut out = vec![0x82];
+    let mut out = if rng.chance(1, 10) { vec![0x98, 0x02] } else { vec![0x82] };
     if rng.chance(1, 8) { out.push(0x18); out.push(tag as u8) } else { out.push(tag as u8) }
-    array(&mut out, &parts, false);
+    let indef_inner = rng.chance(1, 8);
+    array(&mut out, &parts, indef_inner);
     out
 }
 
